@@ -4,10 +4,14 @@
 Require Extraction.
 Require ExtrOcamlBasic.
 From Coq Require Import NArith ZArith List.
-From V9 Require Import Lib.GoSem Gen.Consts Log.Ring.
+From V9 Require Import Lib.GoSem Lib.Bytes Gen.Consts Log.Ring Codec.Msg Codec.Pack Codec.Unpack.
 
 Extraction Language OCaml.
 Extraction "model.ml"
   N.add N.mul N.sub N.div N.modulo N.eqb N.ltb N.leb N.of_nat N.to_nat
   Ring.run_ops Ring.ring_init Ring.filter_result_ok Ring.conc_result_ok Ring.conc_final_ok
-  Ring.spec_filter.
+  Ring.spec_filter
+  Msg.spec_encode Msg.spec_stat Msg.wf_msg Msg.wf_dir Msg.norm_msg Msg.norm_dir Msg.typ
+  Pack.pack Pack.pack_dir Pack.set_tag Pack.rread_two_step
+  Unpack.unpack Unpack.unpack_dir Unpack.unpack_alloc
+  Consts.c_NOTAG Consts.c_NOFID Consts.c_NOUID Consts.c_IOHDRSZ.
